@@ -216,6 +216,15 @@ class Ctx:
             return z3.unsat
         return self.solver.check(*[zbool(f) for f in fs])
 
+    def check_sliced(self, f, timeout_ms=1500):
+        from .verify import relevant
+        s = z3.Solver()
+        s.set("timeout", timeout_ms)
+        for g in relevant(self.pc, Not(f)):
+            s.add(g)
+        s.add(zbool(f))
+        return s.check()
+
     def entails(self, f):
         """True iff pc |= f is proved (unknown counts as not proved)"""
         c = conc(f) if not isinstance(f, bool) else f
@@ -234,6 +243,14 @@ class Ctx:
             self.assume(cond)
             return True
         if self.check(cond) == z3.unsat:
+            self.assume(Not(cond))
+            return False
+        # second attempt on the relevant slice of the path condition (fresh solver): prunes paths the incremental check left open
+        r = self.check_sliced(Not(cond))
+        if r == z3.unsat:
+            self.assume(cond)
+            return True
+        if r != z3.sat and self.check_sliced(cond) == z3.unsat:
             self.assume(Not(cond))
             return False
         if self.dpos < len(self.decisions):
